@@ -1,2 +1,100 @@
-(* C12 - placeholder while the proofs are being written *)
-From LV Require Import Base.Buf Split.SplitModel.
+(* C12 - split, tok and the word utilities implement one quoting grammar consistently.
+   Statements only, each closed by `exact`, followed by Print Assumptions; non-vacuity
+   examples at the end.  Models and specifications: Split/SplitModel.v (`tokens` is the
+   quoting grammar, `words` the word grammar, `pword_spec` the whitespace-word starts). *)
+From LV Require Import Base.Buf Split.SplitModel Split.SplitProofs.
+Local Open Scope Z_scope.
+
+(* split produces exactly the token list of the grammar: every string, every delimiter set
+   (None = NULL = whitespace), whatever follows the terminator in the block *)
+Theorem C12_split_is_tokens : forall d s rest, Forall nz_byte s ->
+  split d (cstr s rest) = Ok (match tokens d s with [] => None | l => Some l end).
+Proof. exact split_is_tokens. Qed.
+Print Assumptions C12_split_is_tokens.
+
+(* tok_eval produces the same tokens, each trimmed *)
+Theorem C12_tok_is_tokens_trimmed : forall d s rest, Forall nz_byte s ->
+  tok_eval d (cstr s rest) = Ok (map trim (tokens d s)).
+Proof. exact tok_is_tokens_trimmed. Qed.
+Print Assumptions C12_tok_is_tokens_trimmed.
+
+(* the two agree token for token modulo tok's trimming *)
+Theorem C12_split_tok_agree : forall d s rest, Forall nz_byte s ->
+  exists l, split d (cstr s rest) = Ok (match l with [] => None | _ => Some l end) /\
+            tok_eval d (cstr s rest) = Ok (map trim l).
+Proof. exact split_tok_agree. Qed.
+Print Assumptions C12_split_tok_agree.
+
+(* join is the tokens with the separator between them, in an exactly sized block *)
+Theorem C12_join_exact : forall sep ts,
+  Forall nz_byte (match sep with Some s => s | None => [] end) -> Forall (Forall nz_byte) ts ->
+  join sep ts = Ok (match ts with [] => None
+                    | _ => Some (cstr (join_spec (match sep with Some s => s | None => [] end) ts) []) end).
+Proof. exact join_exact. Qed.
+Print Assumptions C12_join_exact.
+
+(* joining plain tokens (non-empty, no delimiter, quote or backslash) with a non-empty
+   separator made of delimiter characters and splitting again returns the tokens *)
+Theorem C12_join_split_round_trip : forall d sep ts,
+  sep <> [] -> Forall (fun c => nz_byte c /\ delim d c = true) sep ->
+  ts <> [] -> Forall (plain d) ts ->
+  exists joined, join (Some sep) ts = Ok (Some joined) /\ split d joined = Ok (Some ts).
+Proof. exact join_split_round_trip. Qed.
+Print Assumptions C12_join_split_round_trip.
+
+(* words_consistent, three parts: the count, every word 1..n, every pointer *)
+Theorem C12_num_words_counts_words : forall s rest, Forall nz_byte s ->
+  num_words (cstr s rest) = Ok (Z.of_nat (length (words s))).
+Proof. exact num_words_exact. Qed.
+Print Assumptions C12_num_words_counts_words.
+
+Theorem C12_get_word_is_ith_word : forall s rest idx, Forall nz_byte s ->
+  1 <= idx <= Z.of_nat (length (words s)) ->
+  get_word idx (cstr s rest) = Ok (nth_error (words s) (Z.to_nat (idx - 1))).
+Proof. exact get_word_exact. Qed.
+Print Assumptions C12_get_word_is_ith_word.
+
+Theorem C12_get_pword_points_at_ith_ws_word : forall s rest idx, Forall nz_byte s ->
+  get_pword idx (cstr s rest) = Ok (pword_spec idx s).
+Proof. exact get_pword_exact. Qed.
+Print Assumptions C12_get_pword_points_at_ith_ws_word.
+
+(* no scanner reads (or writes) outside its blocks: the input block is exactly the string
+   and its terminator, s is arbitrary (ends in a backslash, has unbalanced quotes, ...) *)
+Theorem C12_scanners_stay_inside : forall d s idx, Forall nz_byte s ->
+  is_ok (split d (cstr s [])) = true /\ is_ok (tok_eval d (cstr s [])) = true /\
+  is_ok (num_words (cstr s [])) = true /\ is_ok (get_word idx (cstr s [])) = true /\
+  is_ok (get_pword idx (cstr s [])) = true.
+Proof. exact scanners_stay_inside. Qed.
+Print Assumptions C12_scanners_stay_inside.
+
+(* ---- non-vacuity and reading aids: the grammar on the inputs the property names ---- *)
+(* a, DQ, b, blank, c, DQ, blank, DQ, DQ with the default set: quotes group and are removed,
+   an empty quoted string is an empty token *)
+Example C12_ex_grammar :
+  tokens None [97; 34; 98; 32; 99; 34; 32; 34; 34] = [[97; 98; 32; 99]; []].
+Proof. vm_compute. reflexivity. Qed.
+(* a\:b:c\  with the set ":" : escaped delimiter literal, final backslash literal *)
+Example C12_ex_escape :
+  tokens (Some [58]) [97; 92; 58; 98; 58; 99; 92] = [[97; 58; 98]; [99; 92]].
+Proof. vm_compute. reflexivity. Qed.
+(* the model on an input ending in a backslash, explicit delimiter set, exactly sized block *)
+Example C12_ex_trailing_backslash :
+  split (Some [58]) (cstr [97; 92] []) = Ok (Some [[97; 92]]) /\
+  tok_eval (Some [58]) (cstr [97; 92] []) = Ok [[97; 92]].
+Proof. vm_compute. split; reflexivity. Qed.
+(* DQ a BACKSLASH DQ b DQ blank c : two words, both delivered *)
+Example C12_ex_words :
+  let s := [34; 97; 92; 34; 98; 34; 32; 99] in
+  num_words (cstr s []) = Ok 2 /\ get_word 1 (cstr s []) = Ok (Some [97; 34; 98]) /\
+  get_word 2 (cstr s []) = Ok (Some [99]) /\ get_pword 2 (cstr s []) = Ok (Some 7).
+Proof. vm_compute. repeat split; reflexivity. Qed.
+(* the hypotheses of the round trip are satisfiable *)
+Example C12_ex_round_trip :
+  join (Some [58]) [[97]; [98; 98]] = Ok (Some (cstr [97; 58; 98; 98] [])) /\
+  split (Some [58]) (cstr [97; 58; 98; 98] []) = Ok (Some [[97]; [98; 98]]) /\
+  plain (Some [58]) [98; 98].
+Proof.
+  split; [vm_compute; reflexivity|]. split; [vm_compute; reflexivity|].
+  split; [discriminate|]. repeat constructor; unfold nz_byte; try lia; discriminate.
+Qed.
